@@ -305,4 +305,125 @@ Proof.
     + apply (KC HUL). exact HJ.
 Qed.
 
+(* ------------------------------------------------------------------ two worlds that agree below an element *)
+Lemma is_identifiable_agree n w w' r :
+  (forall s, In (CElem s) (n_content n) -> w_nodes w' s = w_nodes w s) ->
+  is_identifiable T n w = Val (r, w) -> is_identifiable T n w' = Val (r, w').
+Proof.
+  intros Hk H. unfold is_identifiable in *.
+  apply wbind_inv in H as [(named & w1 & E & H) | (e & E & ->)].
+  2: { apply wl_inv in E as (? & _ & [=] & _). }
+  apply wl_inv in E as (nm & Hnm & [= <-] & ->).
+  unfold wbind at 1. unfold wl, wlift. rewrite Hnm.
+  destruct (negb named); [apply wret_inv in H as (-> & _); reflexivity|].
+  destruct (n_content n) as [|[s|d] rest]; try (apply wret_inv in H as (-> & _); reflexivity).
+  apply wbind_inv in H as [(sn & w1 & E & H) | (e & E & _)].
+  2: { apply get_node_inv in E as (? & _ & [=] & _). }
+  apply get_node_inv in E as (sn' & Hs & [= <-] & ->). apply wret_inv in H as (-> & _).
+  unfold wbind, get_node. rewrite (Hk s (or_introl eq_refl)), Hs. reflexivity.
+Qed.
+
+Lemma item_name_agree n w w' r :
+  (forall s, In (CElem s) (n_content n) -> w_nodes w' s = w_nodes w s) ->
+  item_name T n w = Val (r, w) -> item_name T n w' = Val (r, w').
+Proof.
+  intros Hk H. unfold item_name in *.
+  apply wbind_inv in H as [(named & w1 & E & H) | (e & E & ->)].
+  2: { apply wl_inv in E as (? & _ & [=] & _). }
+  apply wl_inv in E as (nm & Hnm & [= <-] & ->).
+  unfold wbind at 1. unfold wl, wlift. rewrite Hnm.
+  destruct (negb named); [apply wret_inv in H as (-> & _); reflexivity|].
+  destruct (n_content n) as [|[s|d] rest]; try (apply wret_inv in H as (-> & _); reflexivity).
+  apply wbind_inv in H as [(sn & w1 & E & H) | (e & E & _)].
+  2: { apply get_node_inv in E as (? & _ & [=] & _). }
+  apply get_node_inv in E as (sn' & Hs & [= <-] & ->).
+  unfold wbind at 1. unfold get_node. rewrite (Hk s (or_introl eq_refl)), Hs.
+  destruct (n_name sn =? SHORT T); [|apply wret_inv in H as (-> & _); reflexivity].
+  apply wbind_inv in H as [(cd & w1 & E & H) | (e & E & ->)].
+  2: { apply wl_inv in E as (? & _ & [=] & _). }
+  apply wl_inv in E as (cd' & Hcd & [= <-] & ->). apply wret_inv in H as (-> & _).
+  unfold wbind, wl, wlift. rewrite Hcd. reflexivity.
+Qed.
+
+Definition AgreeBelow (w w' : world) (i : id) : Prop := forall j, Sub w i j -> w_nodes w' j = w_nodes w j.
+
+Lemma AgreeBelow_child w w' i n c :
+  AgreeBelow w w' i -> w_nodes w i = Some n -> In (CElem c) (n_content n) -> AgreeBelow w w' c.
+Proof. intros H Hn Hin j HS. apply H. eapply Sub_prepend; eauto. Qed.
+
+Lemma SegOf_agree w w' i s : AgreeBelow w w' i -> SegOf T w i s -> SegOf T w' i s.
+Proof.
+  intros HA (n & b & Hn & Hb & Hs).
+  assert (Hk : forall k, In (CElem k) (n_content n) -> w_nodes w' k = w_nodes w k).
+  { intros k Hin. apply HA. econstructor; [constructor | exact Hn | exact Hin]. }
+  exists n, b. split; [rewrite (HA i (Sub_refl _ _)); exact Hn|].
+  split; [eapply is_identifiable_agree; eauto|].
+  destruct Hs as [Hs|(-> & o & Ho & ->)]; [left; exact Hs|].
+  right. split; auto. exists o. split; auto. eapply item_name_agree; eauto.
+Qed.
+
+Lemma IsIdent_agree w w' i : AgreeBelow w w' i -> IsIdent T w i -> IsIdent T w' i.
+Proof.
+  intros HA (n & Hn & Hb). exists n. split; [rewrite (HA i (Sub_refl _ _)); exact Hn|].
+  eapply is_identifiable_agree; [|exact Hb]. intros k Hin. apply HA. econstructor; [constructor | exact Hn | exact Hin].
+Qed.
+
+Lemma RPath_agree w w' i j q : AgreeBelow w w' i -> RPath T w i j q -> RPath T w' i j q.
+Proof.
+  intros HA H. induction H as [i s Hs | i n c j s q Hs Hn Hin _ IH].
+  - constructor. eapply SegOf_agree; eauto.
+  - econstructor.
+    + eapply SegOf_agree; eauto.
+    + rewrite (HA i (Sub_refl _ _)). exact Hn.
+    + exact Hin.
+    + apply IH. eapply AgreeBelow_child; eauto.
+Qed.
+
+Lemma RPath_Sub w i j q : RPath T w i j q -> Sub w i j.
+Proof.
+  induction 1 as [i s Hs | i n c j s q Hs Hn Hin _ IH]; [constructor|]. eapply Sub_prepend; eauto.
+Qed.
+
+(* ------------------------------------------------------------------ the public copy calls *)
+Theorem copy_registered_ids h other pos w c w' m :
+  Closed w -> copy_call T LATEST h other pos w = Val (OK c, w') ->
+  model_of h w = Val (OK m, w) ->
+  exists nh w1 path,
+    w_nodes w h = Some nh /\ Ext w w1 /\ path_unchecked T nh w1 = Val (OK path, w1) /\
+    (UniqueRel T w' c -> forall j q, RPath T w' c j q -> IsIdent T w' j -> HasId w' m (path ++ q) j).
+Proof.
+  intros Cw H Hm.
+  apply copy_call_inner in H as [(_ & e & [=]) | (m' & v & ps & _ & Hm' & _ & H)].
+  rewrite Hm in Hm'. injection Hm' as <-.
+  destruct (ccsei_spec T _ _ _ _ _ _ _ _ Cw H)
+    as (_ & _ & ns & Hns & _ & w1 & Hd & HR & w3 & w4 & path & E4 & Hmod & Hsame & Hself3 & Hpath).
+  destruct (deep_copy_fresh T _ _ _ _ _ _ Cw Hd) as (HF & Ex & _).
+  exists ns, w1, path. split; auto. split; auto. split; auto.
+  assert (Hself : h < w_next w) by (eapply (proj1 Cw); eauto).
+  assert (HF' : FreshTree (w_next w) w' c).
+  { eapply FreshTree_transport; [exact HF|]. intros i n1 Hi Hn1. eapply (CopyRel_kids T); eauto. lia. }
+  assert (HF3 : FreshTree (w_next w) w3 c).
+  { eapply FreshTree_transport; [exact HF'|]. intros i n1 Hi Hn1. exists n1. rewrite <- Hsame by lia. auto. }
+  assert (A1 : AgreeBelow w' w3 c).
+  { intros j HS. pose proof (FreshTree_Sub _ _ _ _ HF' HS) as HFj. inversion HFj; subst. symmetry. apply Hsame. lia. }
+  assert (A2 : AgreeBelow w3 w' c).
+  { intros j HS. pose proof (FreshTree_Sub _ _ _ _ HF3 HS) as HFj. inversion HFj; subst. apply Hsame. lia. }
+  assert (A1j : forall j, Sub w' c j -> AgreeBelow w' w3 j).
+  { intros j HSj x HSx. apply A1. clear - HSj HSx. induction HSx; auto. econstructor; eauto. }
+  assert (A2j : forall j, Sub w3 c j -> AgreeBelow w3 w' j).
+  { intros j HSj x HSx. apply A2. clear - HSj HSx. induction HSx; auto. econstructor; eauto. }
+  intros HU j q HP HI.
+  destruct (register_subtree_ids _ _ _ _ _ _ _ E4) as (_ & _ & _ & C).
+  assert (HU3 : UniqueRel T w3 c).
+  { intros j1 j2 q0 P1 P2 I1 I2. apply (HU j1 j2 q0).
+    - eapply RPath_agree; eauto.
+    - eapply RPath_agree; eauto.
+    - eapply IsIdent_agree; [apply A2j; eapply RPath_Sub; eauto | exact I1].
+    - eapply IsIdent_agree; [apply A2j; eapply RPath_Sub; eauto | exact I2]. }
+  assert (HO : HasId w4 m (path ++ q) j).
+  { apply (C HU3). exists q. split; [eapply RPath_agree; eauto|]. split; auto.
+    eapply IsIdent_agree; [apply A1j; eapply RPath_Sub; eauto | exact HI]. }
+  destruct HO as (x & Hx & Hk). exists x. rewrite Hmod. auto.
+Qed.
+
 End RegId.
